@@ -21,6 +21,7 @@ from pathlib import Path
 VERIF = Path(__file__).resolve().parent.parent
 CATALOGUE_DIR = VERIF / "pgverif" / "selftest_catalogue"
 SEEDED_DIR = VERIF / "seeded"
+EQUIV_DIR = VERIF / "equivalents"
 
 
 def load_catalogue(prop):
@@ -39,6 +40,17 @@ def seeded_for(prop):
                 if prop in meta.get("caught_by", {}):
                     out.append({"name": f"seeded/{d.name}", "patch": str(d / "patch.diff"), "expect": "fire",
                                 "rule": meta["caught_by"][prop]})
+    return out
+
+
+def equivalents_for(prop):
+    """stored behaviour-preserving refactorings (sub-agent made, differential script + pinned suite confirmed): the check of the
+    property they were written against must stay silent on them"""
+    out = []
+    if EQUIV_DIR.exists():
+        for d in sorted(EQUIV_DIR.glob(f"{prop}-*")):
+            if (d / "patch.diff").exists():
+                out.append({"name": f"equivalents/{d.name}", "patch": str(d / "patch.diff"), "expect": "silent"})
     return out
 
 
@@ -94,7 +106,7 @@ def _one(prop, root, entry, base):
 
 
 def run_selftest(prop, root, jobs=8):
-    entries = load_catalogue(prop) + seeded_for(prop)
+    entries = load_catalogue(prop) + seeded_for(prop) + equivalents_for(prop)
     if not entries:
         return {"entries": 0, "note": "no catalogue for this property"}
     base = tempfile.mkdtemp(prefix="pgverif-selftest-", dir=os.environ.get("PGVERIF_SCRATCH") or tempfile.gettempdir())
